@@ -63,19 +63,14 @@ Proof.
   intros H. apply (H (L2Sym SEnd)); [cbn; tauto | reflexivity].
 Qed.
 
-(* an empty preset dictionary: writer and reader disagree on whether there is one *)
-Theorem lzma2_empty_preset_refuted :
-  exists data evs, bytes_ok data = true /\ l2_no_end evs /\
-    l2_run 3 0 2 4096 (Some []) data evs [5] = Ok ([], E_INVALID_INPUT).
-Proof.
-  exists [97], [L2Sym (SLit 97); L2Lzma 1 6].
-  split; [reflexivity|]. split; [|vm_compute; reflexivity].
-  intros ev Hin. cbn [In] in Hin. repeat (destruct Hin as [<- | Hin]; [discriminate|]). contradiction.
-Qed.
-
-Theorem lzma2_empty_preset_stored_refuted :
-  l2_run 3 0 2 4096 (Some []) [97] [L2Unc 1] [5] = Ok ([], E_INVALID_INPUT).
-Proof. vm_compute. reflexivity. Qed.
+(* an empty preset dictionary: before the /repo fix 14cc6e9 the writer treated Some [] as a preset
+   (no dictionary reset in the first chunk) while the reader insisted on one, so the stream was
+   rejected (witnesses found by this proof: [L2Sym (SLit 97); L2Lzma 1 6] and [L2Unc 1]).  The
+   writer model follows the repaired code: an empty preset counts as none. *)
+Example lzma2_empty_preset_fixed :
+  l2_run 3 0 2 4096 (Some []) [97] [L2Sym (SLit 97); L2Lzma 1 6] [5] = Ok ([97], 0) /\
+  l2_run 3 0 2 4096 (Some []) [97] [L2Unc 1] [5] = Ok ([97], 0).
+Proof. split; vm_compute; reflexivity. Qed.
 
 (* the preset variant is not vacuous either *)
 Example lzma2_roundtrip_preset_hyps :
